@@ -95,6 +95,14 @@ PLAN["C17"] = {
     "components": {"real": ["fw/mgmt Thread.Run and all six modules", "fw/face internal transport + its NDNLP link service", "fw/face NDNLP link services of the application faces (send/receive goroutines)", "fw/fw Thread.Run (1-2 threads), PIT/CS", "fw/table FIB (nametree/hashtable), RIB, strategy table", "fw/face FaceTable", "std/ndn/mgmt_2022 codecs"], "stub": ["transports of application faces (SimTransport)", "faces/create is exercised only on URIs that must be refused (a successful create dials real sockets)"]},
     "assumptions": ["RIB commands use the /r name space and FIB commands the /f name space (the RIB rewrites the FIB entry of a prefix it manages)", "an MTU below 64 bytes cannot carry a packet and must be refused; 64..127 is left open; >=128 must be accepted", "a requester never destroys its own face or the internal face", "NLSR readvertisement is off"],
 }
+PLAN["C16"] = {
+    "parts": [{"engine": "schedsim", "quick": 20000, "thorough": 2000000}],
+    "nontrivial": ">=1 task was parked inside a RIB mutator while another task ran, or the scenario's release order decided more than 4 scheduling points",
+    "fault_note": "schedule fault = which parked task is released at each yield point (before every FIB lock acquisition, between the steps of face removal, between a lookup's return and the use of its result); endpoint fault = face teardown racing with registrations and lookups",
+    "components": {"real": ["fw/table RibTable (AddEncRoute, RemoveRouteEnc, CleanUpFace)", "fw/table FibStrategyTree / FibStrategyHashTable incl. their RWMutex", "fw/face Table.Remove", "fw/dispatch face map"], "stub": ["the threads themselves: management thread, face send goroutines and forwarding threads are represented by simulated tasks that issue the same table calls"]},
+    "assumptions": ["memory races between two yield points that change no observable result are not visible to a one-at-a-time scheduler (the Go race detector cannot be combined with it)", "porcupine verdict Unknown (time-out) is counted, never reported"],
+    "technique": "deterministic simulation: cooperative seeded scheduler over real goroutines parked at lock/yield hooks, recorded history checked for linearizability with porcupine against a sequential reference model",
+}
 
 NOT_APPLICABLE = [
     {"property_id": "C03", "reason": "encode->decode round trip is a pure function of the packet value and a byte segmentation: no schedule, clock, fault or shared state for a simulator to own"},
@@ -104,6 +112,7 @@ NOT_APPLICABLE = [
 ]
 
 ENGINES = [
+    {"name": "schedsim", "path": "sim/schedsim", "serves_properties": ["C16"], "kind_free_text": "cooperative seeded scheduler releasing real goroutines one at a time at table-lock yield hooks; porcupine linearizability check"},
     {"name": "mgmtsim", "path": "sim/mgmtsim", "serves_properties": ["C17"], "kind_free_text": "whole forwarder (management thread, internal face, forwarding threads, link services) in one synctest bubble; command histories against a command-level reference model"},
     {"name": "rxsim", "path": "sim/facesim/rx.go", "serves_properties": ["C04"], "kind_free_text": "hostile link (structure-aware corruption) in front of the real forwarder receive path (link service, reassembly, dispatch, forwarding threads) and the application engine"},
     {"name": "linksim", "path": "sim/facesim/link.go", "serves_properties": ["C10"], "kind_free_text": "two real link services joined by a simulated datagram link that permutes, drops and duplicates frames"},
